@@ -313,7 +313,9 @@ class SFloat:
         if isinstance(n, int):
             return float(n)
         if n.lo < 0:
-            raise EngineLimit("negative amount")
+            if n < 0:                               # decided by the solver under the path condition (forks if both are possible)
+                raise EngineLimit("negative amount")
+            n = LInt(n.t, 0, max(n.hi, 0))
         if n.hi < (1 << 53):
             return SFloat(n, 1, 0)
         return round_to_double(n, 1, 0)
@@ -379,6 +381,8 @@ class SFloat:
             return self._lift(self.concrete() / o.concrete())
         if o.den == 1 and o.num & (o.num - 1) == 0:          # power of two: exact
             return SFloat(self.num, self.den, self.exp2 - o.exp2 - (o.num.bit_length() - 1))
+        if COARSE_DIV:
+            return SFloatQ(self, o)
         return round_to_double(self.num * o.den, self.den * o.num, self.exp2 - o.exp2)
 
     def __rtruediv__(self, o):
@@ -458,6 +462,44 @@ class SFloat:
         raise FormatCut(self)
 
 
+COARSE_DIV = False
+
+
+class SFloatQ:
+    """quotient a / b of two exact non-negative doubles under the COARSE abstraction (switch COARSE_DIV): only int() is
+    offered, and it returns EITHER floor(a/b) or floor(a/b) + 1 (solver's choice).  Sound over-approximation of the
+    correctly rounded division followed by truncation: a and b are exact, the rounded quotient fl(a/b) is monotone and
+    integers below 2**53 are representable, so floor(a/b) <= int(fl(a/b)) <= floor(a/b) + 1.  A counterexample that
+    rests on the extra freedom does not reproduce in the replay and is discarded there."""
+
+    def __init__(self, a, b):
+        self.a, self.b = a, b
+
+    def __int__(self):
+        ex = core.cur()
+        n1, d1 = self.a.exact()
+        n2, d2 = self.b.exact()
+        num, den = n1 * d2, d1 * n2             # a/b = num/den, den a concrete positive integer
+        if isinstance(den, LInt):
+            raise EngineLimit("coarse division by a symbolic value")
+        hi = (num.hi if isinstance(num, LInt) else num) // den + 1
+        if hi >= (1 << 52):
+            raise EngineLimit("coarse division: quotient beyond 2**52")
+        k = getattr(ex, '_coarse_n', 0)
+        ex._coarse_n = k + 1
+        q = LInt(z3.Int('coarse_quotient_%d_%d' % (len(ex.trace), k)), 0, hi)
+        ex._add(z3.And(q.t >= 0, q.t <= hi))
+        ex.assume(s_and(den * (q - 1) <= num, num < den * (q + 1)))
+        return q
+
+    __trunc__ = __int__
+
+    def _no(self, *a, **k):
+        raise EngineLimit("coarse quotient used other than through int()")
+    __lt__ = __le__ = __gt__ = __ge__ = __eq__ = __mul__ = __rmul__ = __add__ = __float__ = __str__ = _no
+    __hash__ = None
+
+
 class SDecF:
     """structured decimal text: the digits of the non-negative integer N with d decimals ("N // 10^d . N % 10^d").
     The analysed code only hands it to float(); contract: float() is correctly rounded."""
@@ -519,9 +561,12 @@ class IntShimL(metaclass=_IntMetaL):
     def __new__(cls, x=0, base=None):
         if isinstance(x, LInt):
             return x
-        if isinstance(x, SFloat):
+        if isinstance(x, (SFloat, SFloatQ)):
             return x.__int__()
         return int(x) if base is None else int(x, base)
+
+    from_bytes = staticmethod(int.from_bytes)
+    to_bytes = staticmethod(int.to_bytes)
 
 
 numbers.Number.register(SFloat)
